@@ -9,8 +9,9 @@
    and the child replaced (its skip path -- same child page, checksum already DEFERRED -- needs the parent to be
    uncommitted already), so the model has one case.  Preserved children keep their decorations.
    The list-level functions (build_branch_nodes, rebuild_branch_level, splice_level, grow) are literally those
-   of CursorSplice.v at T = snode (they are polymorphic in the node type).  That erasing the decorations maps
-   s_session to CursorSplice.t_session is NOT proved; the driver compares the two on every session (ERASE! marker). *)
+   of CursorSplice.v at T = snode (they are polymorphic in the node type).  Erasing the decorations maps s_session
+   to CursorSplice.t_session: ShapeCursorP.session_erase (Props/C18.v: c18_shape_session_erases); the driver still
+   compares the two extracted functions on every session (ERASE! marker). *)
 From Coq Require Import List NArith Bool Arith.
 From RV Require Import Base.SortedMap Btree.Tree Btree.Read Btree.Mutator Btree.Shape Btree.Scan Btree.ShapeScan
                        Btree.Cursor Btree.CursorSplice.
